@@ -226,7 +226,15 @@ fn main() {
         Some("authtable") => authtable(),
         Some("wire") => synth::wire(&args[1..]),
         Some("xmatrix") => synth::xmatrix(),
-        Some("c17") => c17::run(&args[1..]),
+        Some("c17") => {
+            // panics of the code under test are caught and logged as data; anything else is a harness failure worth seeing
+            std::panic::set_hook(Box::new(|info| {
+                if std::thread::current().name() != Some("c17-calls") {
+                    eprintln!("harness panic: {info}");
+                }
+            }));
+            c17::run(&args[1..])
+        }
         Some("c17seeds") => c17::seeds(),
         _ => {
             eprintln!("usage: vh-api select|subsets|real|wire|xmatrix");
